@@ -284,7 +284,7 @@ ALL_WORLD = {"versions": suite_versions, "connect": suite_connect}
 
 CYC_PLACEMENTS = [[[], [], []], [[0], [0], [0]], [[0], [0], []], [[0], [1], []], [[0, 0], [0, 0], [0]], [[0, 0], [0, 1], [0]],
                   [[], [0], [0, 0]], [[0], [0], [1]]]
-CONN_KINDS = ["plain", "ts", "weak", "async"]
+CONN_KINDS = ["plain", "ts", "weak", "async", "ts+async", "weak+async"]
 
 
 def gen_graph(rng: random.Random, n: int, placement, max_conns: int):
@@ -307,15 +307,17 @@ def build_graph_world(g, cache=True):
         warnings.simplefilter("ignore")
         for c in g["conns"]:
             kw = {}
-            ts = 1 if c["kind"] == "ts" else 0
-            weak = c["kind"] == "weak"
+            flags = c["kind"].split("+")
+            ts = 1 if "ts" in flags else 0
+            weak = "weak" in flags
+            is_async = "async" in flags
             if ts:
                 kw["time_shifted"] = 1
             if weak:
                 kw["weak"] = True
             if ts or weak:
                 kw["initial_data"] = {"pe": 1}
-            if c["kind"] == "async":
+            if is_async:
                 kw["async_requests"] = True
             try:
                 w.connect(ents[c["src"]], ents[c["dst"]], ("pe", c["dattr"]), **kw)
@@ -323,7 +325,7 @@ def build_graph_world(g, cache=True):
             except ScenarioError:
                 r = "ScenarioError"
             results.append(r)
-            lines.append(f"w.connect {c['src']} 0 {c['dst']} 0 1 2 {AID[c['dattr']]} {int(c['kind'] == 'async')} {ts} {int(weak)} " +
+            lines.append(f"w.connect {c['src']} 0 {c['dst']} 0 1 2 {AID[c['dattr']]} {int(is_async)} {ts} {int(weak)} " +
                          ("1 2 1" if (ts or weak) else "0"))
     return w, lines, results
 
@@ -368,7 +370,7 @@ def nonuniform_graph(g):
     hi = [[0] * n for _ in range(n)]
     for c in g["conns"]:
         cut = _common_len(pl[c["src"]], pl[c["dst"]]) + 1
-        if c["kind"] == "weak" and cut == 1:
+        if "weak" in c["kind"].split("+") and cut == 1:
             continue
         a, b = c["src"], c["dst"]
         lo[a][b] = min(lo[a][b], cut)
@@ -396,6 +398,20 @@ def two_sim_graphs():
                 yield {"placement": placement, "conns": conns}
 
 
+def ordered_parallel_graphs():
+    """Two simulators: 0 -> 1 carries two parallel connections of different kinds in a given ORDER (the tables keep
+    per-pair minima, so the order of the connect calls must not matter), 1 -> 0 one connection of any kind."""
+    import itertools
+    kinds = ["plain", "ts", "weak", "async", "ts+async", "weak+async"]
+    for placement in ([[], []], [[0], [0]]):
+        for k1, k2 in list(itertools.permutations(kinds, 2)) + [(k, None) for k in kinds]:
+            for back in kinds:
+                for dattr in ("tr", "nt"):
+                    yield {"placement": placement, "conns": [{"src": 0, "dst": 1, "kind": k1, "dattr": dattr}] +
+                           ([{"src": 0, "dst": 1, "kind": k2, "dattr": dattr}] if k2 else []) +
+                           [{"src": 1, "dst": 0, "kind": back, "dattr": "tr"}]}
+
+
 def gen_cyclic_graph(rng: random.Random, placement):
     """Mostly-cyclic multigraph: a random cycle of plain or mixed connections plus chords/shortcuts/self-connections."""
     n = len(placement)
@@ -405,6 +421,10 @@ def gen_cyclic_graph(rng: random.Random, placement):
     for i in range(k):
         kind = rng.choice(["plain", "plain", "plain", "ts", "weak", "async"])
         conns.append({"src": cyc[i], "dst": cyc[(i + 1) % k], "kind": kind, "dattr": rng.choice(["nt", "tr"])})
+    if rng.random() < 0.6:
+        # a parallel connection of another kind on one edge of the cycle (either order after the shuffle)
+        e = rng.choice(conns)
+        conns.append({"src": e["src"], "dst": e["dst"], "kind": rng.choice([k for k in CONN_KINDS if k != e["kind"]]), "dattr": e["dattr"]})
     for _ in range(rng.randint(0, 5)):
         a, b = rng.randrange(n), rng.randrange(n)
         conns.append({"src": a, "dst": b, "kind": rng.choice(["ts", "ts", "weak", "plain"]), "dattr": rng.choice(["nt", "tr"])})
@@ -417,7 +437,7 @@ def suite_cycles(rng: random.Random, tier: str) -> Suite:
     n_graphs = 500 if tier == "quick" else 8000
     n_two = 700 if tier == "quick" else None
     s.rule = (("700 sampled of" if n_two else "all") + " 8190 multigraphs over two simulators (every ordered pair incl. self-connections carries any subset of "
-              f"plain / time-shifted / weak connections; flat and grouped) + {n_graphs} random and {n_graphs} mostly-cyclic multigraphs over 3 simulators in 8 group "
+              f"plain / time-shifted / weak connections; flat and grouped) + all ordered pairs of parallel connections of different kinds (plain / shifted / weak / async / shifted+async / weak+async) with a back edge + {n_graphs} random and {n_graphs} mostly-cyclic multigraphs over 3 simulators in 8 group "
               "placements with up to 9 connections (plain / time-shifted / weak / async, trigger or non-trigger inputs, shortcuts and parallel connections); "
               "three orders of worklist choice on the model side; compared: ensure_no_dataflow_cycles accepts / rejects / asserts, and the "
               "triggering-ancestor table with its minimal delays. distinct = distinct multigraphs")
@@ -425,7 +445,7 @@ def suite_cycles(rng: random.Random, tier: str) -> Suite:
     two = list(two_sim_graphs())
     if n_two:
         two = rng.sample(two, n_two)
-    graphs = two + [gen_graph(rng, 3, rng.choice(CYC_PLACEMENTS), 5) for _ in range(n_graphs)] + \
+    graphs = two + list(ordered_parallel_graphs()) + [gen_graph(rng, 3, rng.choice(CYC_PLACEMENTS), 5) for _ in range(n_graphs)] + \
         [gen_cyclic_graph(rng, rng.choice(CYC_PLACEMENTS)) for _ in range(n_graphs)]
     seen = set()
     for g in graphs:
